@@ -597,6 +597,25 @@ func runCrashCase(r *rep.Reporter, cc crashCase) {
 			return
 		}
 	}
+	// what a delimited listing groups must exist: a common prefix without any key below it is the
+	// remains of a write or delete that was in flight (neither wholly present nor wholly absent)
+	if dl, err := cl.do("GET", p2.url(bucket, "")+"?delimiter=%2F", nil, nil, 0); err == nil && dl.Status == 200 {
+		var dlr drv.ListResult
+		drv.ParseXML(dl.Body, &dlr)
+		for _, pf := range dlr.Prefixes() {
+			has := false
+			for k := range listed {
+				if strings.HasPrefix(k, pf) {
+					has = true
+				}
+			}
+			r.Count("common_prefixes_audited_after_restart", 1)
+			if !has {
+				fail("empty-common-prefix-after-restart", fmt.Sprintf("the delimited listing shows common prefix %q but no key below it exists (keys: %v)", pf, keysOf(listed)), wit())
+				return
+			}
+		}
+	}
 	for k := range listed {
 		known := false
 		for _, kk := range keys {
@@ -656,6 +675,15 @@ func runCrashCase(r *rep.Reporter, cc crashCase) {
 	}
 }
 
+func keysOf(m map[string]string) []string {
+	var ks []string
+	for k := range m {
+		ks = append(ks, k)
+	}
+	sort.Strings(ks)
+	return ks
+}
+
 func hdrOf(r *drv.Resp, name string) string {
 	if r == nil {
 		return ""
@@ -682,8 +710,8 @@ func runC15(c *Ctx) {
 	}
 	var cases []crashCase
 	points := map[string][]string{
-		"fs":       {"fs.put.before-copy", "fs.put.before-meta", "fs.put.before-rename", "fs.put.before-commit", "fs.put.after-rename", "fs.delete.between", "fs.modres.probe", "ensure-bucket.after"},
-		"directfs": {"fs.put.before-copy", "fs.put.before-meta", "fs.put.before-rename", "fs.put.before-commit", "fs.put.after-rename", "fs.delete.between", "fs.modres.probe", "ensure-bucket.after"},
+		"fs":       {"fs.put.before-copy", "fs.put.before-meta", "fs.put.before-rename", "fs.put.after-mkdir", "fs.put.before-commit", "fs.put.after-rename", "fs.delete.before-prune", "fs.delete.between", "fs.modres.probe", "ensure-bucket.after"},
+		"directfs": {"fs.put.before-copy", "fs.put.before-meta", "fs.put.before-rename", "fs.put.after-mkdir", "fs.put.before-commit", "fs.put.after-rename", "fs.delete.before-prune", "fs.delete.between", "fs.modres.probe", "ensure-bucket.after"},
 		"bolt":     {"bolt.put.before-update", "bolt.put.after-update", "ensure-bucket.after"},
 	}
 	nths := []int{1, 2, 3, 5, 8}
